@@ -178,8 +178,11 @@ def check_render(doc, opt, ctx):
             cands = [n for n in nodes if (cid is None or n["_gvid"] in members.get(cid, ())) and n.get("URL") == e["uri"]
                      and n.get("fillcolor") == ELEMENT_FILL[e["type"]]]
             if len(cands) > 1 and cid is None:
+                # a bundle's edge may pull a document-level node into the bundle's cluster; prefer the nodes outside every cluster, unless
+                # the document could not be unified and holds several records of this URI and kind (then any of the nodes may be this one)
                 own = [n for n in cands if not any(n["_gvid"] in m for m in members.values())]
-                cands = own or cands
+                if len(own) >= want[(e["uri"], ELEMENT_FILL[e["type"]])]:
+                    cands = own or cands
             if not cands:
                 continue
             label_ok = False
